@@ -34,7 +34,9 @@ type shClosure struct {
 }
 
 type shOp struct {
-	Op     string            `json:"op"` // setenv | call | direct | par
+	Op     string            `json:"op"`    // setenv | mk | call | direct | par
+	Kind   string            `json:"kind"`  // mk: "run" | "out"
+	Baked  shSlice           `json:"baked"` // mk
 	K      string            `json:"k"`
 	V      string            `json:"v"`
 	C      int               `json:"c"`
@@ -81,6 +83,8 @@ type shObs struct {
 	Argv    [][]string        `json:"argv"`
 	Out     *string           `json:"out"`
 	Err     string            `json:"err"`
+	Status  int               `json:"status"` // sh.ExitStatus of the returned error (0: nil)
+	Stdout  string            `json:"stdout"` // what reached the process's os.Stdout during this call
 	Snap    [][]string        `json:"snap"`
 	Emap    map[string]string `json:"emap"`
 	EmapNil bool              `json:"emap_nil"`
@@ -135,18 +139,45 @@ func errStr(err error) string {
 	return err.Error()
 }
 
-// with os.Stdout pointing at /dev/null (the V variants write the child's stdout there; our own
-// stdout is the answer channel)
-func shQuiet(f func() error) error {
-	null, err := os.OpenFile(os.DevNull, os.O_WRONLY, 0)
-	if err != nil {
-		return err
+func shMkClosure(arrays [][]string, kind, cmd string, b shSlice) shFn {
+	baked := shMk(arrays, b)
+	if kind == "out" {
+		f := sh.OutCmd(cmd, baked...)
+		return func(args ...string) (*string, error) {
+			s, err := f(args...)
+			return &s, err
+		}
 	}
-	defer null.Close()
+	f := sh.RunCmd(cmd, baked...)
+	return func(args ...string) (*string, error) {
+		return nil, f(args...)
+	}
+}
+
+// shCapture runs f with os.Stdout replaced by a fresh temp file and returns what was written to it.
+func shCapture(path string, f func()) string {
+	tmp, err := os.Create(path)
+	if err != nil {
+		f()
+		return "<cannot capture: " + err.Error() + ">"
+	}
 	old := os.Stdout
-	os.Stdout = null
-	defer func() { os.Stdout = old }()
-	return f()
+	os.Stdout = tmp
+	func() {
+		defer func() { os.Stdout = old }()
+		f()
+	}()
+	tmp.Close()
+	b, _ := ioutil.ReadFile(path)
+	os.Remove(path)
+	return string(b)
+}
+
+func shStatus(err error) int {
+	if err == nil {
+		return 0
+	}
+	return sh.ExitStatus(err)
 }
 
 func init() {
@@ -183,22 +214,11 @@ func init() {
 		}
 
 		arrays := q.Arrays
-		closures := make([]shFn, len(q.Closures))
-		for i, c := range q.Closures {
-			baked := shMk(arrays, c.Baked)
-			if c.Kind == "out" {
-				f := sh.OutCmd(c.Cmd, baked...)
-				closures[i] = func(args ...string) (*string, error) {
-					s, err := f(args...)
-					return &s, err
-				}
-			} else {
-				f := sh.RunCmd(c.Cmd, baked...)
-				closures[i] = func(args ...string) (*string, error) {
-					return nil, f(args...)
-				}
-			}
+		closures := make([]shFn, 0, len(q.Closures))
+		for _, c := range q.Closures {
+			closures = append(closures, shMkClosure(arrays, c.Kind, c.Cmd, c.Baked))
 		}
+		capPath := q.OutFile + ".stdout"
 		res := shRes{Snap0: shSnap(arrays), Obs: []shObs{}}
 		for _, o := range q.Ops {
 			ob := shObs{Argv: [][]string{}}
@@ -207,41 +227,52 @@ func init() {
 			case "setenv":
 				os.Setenv(o.K, o.V)
 				touched = append(touched, o.K)
+			case "mk":
+				// the closure is made HERE, under the environment and os.Stdout of this moment
+				closures = append(closures, shMkClosure(arrays, o.Kind, o.Cmd, o.Baked))
 			case "call":
 				extra := shMk(arrays, o.Extra)
 				var err error
-				ob.Out, err = closures[o.C](extra...)
+				ob.Stdout = shCapture(capPath, func() { ob.Out, err = closures[o.C](extra...) })
 				ob.Err = errStr(err)
+				ob.Status = shStatus(err)
 				ob.Argv = shLines(q.OutFile)
 			case "direct":
 				args := shMk(arrays, o.Args)
 				emap := o.Emap
 				var err error
-				switch o.Fn {
-				case "Run":
-					err = sh.Run(o.Cmd, args...)
-				case "RunV":
-					err = shQuiet(func() error { return sh.RunV(o.Cmd, args...) })
-				case "RunWith":
-					err = sh.RunWith(emap, o.Cmd, args...)
-				case "RunWithV":
-					err = shQuiet(func() error { return sh.RunWithV(emap, o.Cmd, args...) })
-				case "Output":
-					var s string
-					s, err = sh.Output(o.Cmd, args...)
-					ob.Out = &s
-				case "OutputWith":
-					var s string
-					s, err = sh.OutputWith(emap, o.Cmd, args...)
-					ob.Out = &s
-				case "Exec":
-					var so, se bytes.Buffer
-					_, err = sh.Exec(emap, &so, &se, o.Cmd, args...)
-					s := so.String()
-					ob.Out = &s
-				default:
+				bad := false
+				ob.Stdout = shCapture(capPath, func() {
+					switch o.Fn {
+					case "Run":
+						err = sh.Run(o.Cmd, args...)
+					case "RunV":
+						err = sh.RunV(o.Cmd, args...)
+					case "RunWith":
+						err = sh.RunWith(emap, o.Cmd, args...)
+					case "RunWithV":
+						err = sh.RunWithV(emap, o.Cmd, args...)
+					case "Output":
+						var s string
+						s, err = sh.Output(o.Cmd, args...)
+						ob.Out = &s
+					case "OutputWith":
+						var s string
+						s, err = sh.OutputWith(emap, o.Cmd, args...)
+						ob.Out = &s
+					case "Exec":
+						var so, se bytes.Buffer
+						_, err = sh.Exec(emap, &so, &se, o.Cmd, args...)
+						s := so.String()
+						ob.Out = &s
+					default:
+						bad = true
+					}
+				})
+				if bad {
 					return shRes{Error: "unknown fn " + o.Fn}
 				}
+				ob.Status = shStatus(err)
 				ob.Err = errStr(err)
 				ob.Argv = shLines(q.OutFile)
 				ob.Emap = emap
